@@ -19,6 +19,15 @@ the operands that ARE evaluated, the selected index).
                    expression kept as a callable) is evaluated at EVERY call `f()` - `slots` says which slots are
                    calls of `f` (true) and which are the next of the other expressions (false); defining `f`
                    evaluates nothing
+* `raise_ ks`    - a call that ENDS IN AN EXCEPTION after the operands `ks` have been evaluated: an unknown function /
+                   method / property or a call no overload takes by arity (`ks = []`: resolution fails before anything
+                   is evaluated), a call whose evaluated arguments no overload accepts or two overloads accept, a
+                   payload that raises (`ks` = the eager arguments).  `trace` treats it as the call it would be if it
+                   succeeded; `run` is the evaluation that stops there.
+* `lazy b d`     - an expression whose value is a LAZY sequence (`coll.select(..)`, `.where(..)`, `.orderBy(..)`..)
+                   that nothing iterates: building it evaluates `b` (the collection, eager arguments); the per-element
+                   lambdas `d` stay dormant - testing the value for truth or null, storing it, passing it on or binding
+                   it to a name does not consume an element, so no lambda is applied.
 -/
 namespace Yaql.EvalOrder
 
@@ -35,6 +44,8 @@ inductive X where
   | switchCase (case : X) (sel : Option Nat) (args : List X)
   | coalesce (args : List X) (isNull : List Bool)
   | defCalls (body : X) (slots : List Bool) (others : List X)
+  | raise_ (kids : List X)
+  | lazy (build : List X) (dormant : List X)
 deriving Repr, Inhabited
 
 /-- operands in order until the first one whose flag is set (inclusive) -/
@@ -73,6 +84,8 @@ def trace : X → List Nat
   | .switchCase c sel as => trace c ++ (match sel with | some i => (traces as).getD i [] | none => [])
   | .coalesce as nulls => untilFlag (traces as) (nulls.map not)
   | .defCalls b slots os => callsTrace (trace b) slots (traces os)
+  | .raise_ ks => (traces ks).flatten
+  | .lazy b _ => (traces b).flatten
 def traces : List X → List (List Nat)
   | [] => []
   | x :: r => trace x :: traces r
@@ -99,6 +112,8 @@ def probes : X → List Nat
   | .switchCase c _ as => probes c ++ (probesL as).flatten
   | .coalesce as _ => (probesL as).flatten
   | .defCalls b _ os => probes b ++ (probesL os).flatten
+  | .raise_ ks => (probesL ks).flatten
+  | .lazy b d => (probesL b).flatten ++ (probesL d).flatten
 def probesL : List X → List (List Nat)
   | [] => []
   | x :: r => probes x :: probesL r
@@ -114,6 +129,142 @@ def eagerOnly : X → Bool
 def eagerOnlyL : List X → Bool
   | [] => true
   | x :: r => eagerOnly x && eagerOnlyL r
+end
+
+/-! ### evaluations that end in an exception
+
+`run x` = (the probe log, whether the evaluation ended in an exception).  An exception ends the evaluation of every
+enclosing operator at once: nothing behind the failing call is evaluated, nothing in front of it is evaluated again. -/
+
+/-- a probe log and whether the evaluation ended in an exception -/
+abbrev R := List Nat × Bool
+
+/-- `b` after `a` - unless `a` ended in an exception -/
+def thenR (a b : R) : R := if a.2 then a else (a.1 ++ b.1, b.2)
+
+/-- operands left to right up to the first one that raises -/
+def seqRun : List R → R
+  | [] => ([], false)
+  | t :: r => thenR t (seqRun r)
+
+def untilFlagRun : List R → List Bool → R
+  | [], _ => ([], false)
+  | t :: r, f :: fs => if f then t else thenR t (untilFlagRun r fs)
+  | t :: r, [] => thenR t (untilFlagRun r [])
+
+def switchRun : List R → List Bool → List R → R
+  | [], _, _ => ([], false)
+  | c :: cs, t :: ts, v :: vs => if t then thenR c v else thenR c (switchRun cs ts vs)
+  | c :: cs, [], _ :: vs => thenR c (switchRun cs [] vs)
+  | c :: cs, t :: ts, [] => if t then c else thenR c (switchRun cs ts [])
+  | c :: cs, [], [] => thenR c (switchRun cs [] [])
+
+def callsRun (body : R) : List Bool → List R → R
+  | [], _ => ([], false)
+  | true :: ps, os => thenR body (callsRun body ps os)
+  | false :: ps, o :: os => thenR o (callsRun body ps os)
+  | false :: ps, [] => callsRun body ps []
+
+mutual
+def run : X → R
+  | .leaf => ([], false)
+  | .tick id a => thenR (run a) ([id], false)
+  | .eager ks => seqRun (runs ks)
+  | .and_ a b t => thenR (run a) (if t then run b else ([], false))
+  | .or_ a b t => thenR (run a) (if t then ([], false) else run b)
+  | .elvis r rNull ks => thenR (run r) (if rNull then ([], false) else seqRun (runs ks))
+  | .switch cs ts vs => switchRun (runs cs) ts (runs vs)
+  | .selectCase ps ts => untilFlagRun (runs ps) ts
+  | .allCases ps => seqRun (runs ps)
+  | .switchCase c sel as => thenR (run c) (match sel with | some i => (runs as).getD i ([], false) | none => ([], false))
+  | .coalesce as nulls => untilFlagRun (runs as) (nulls.map not)
+  | .defCalls b slots os => callsRun (run b) slots (runs os)
+  | .raise_ ks => thenR (seqRun (runs ks)) ([], true)
+  | .lazy b _ => seqRun (runs b)
+def runs : List X → List R
+  | [] => []
+  | x :: r => run x :: runs r
+end
+
+mutual
+/-- no failing call anywhere -/
+def noRaise : X → Bool
+  | .leaf => true
+  | .tick _ a => noRaise a
+  | .eager ks => noRaiseL ks
+  | .and_ a b _ => noRaise a && noRaise b
+  | .or_ a b _ => noRaise a && noRaise b
+  | .elvis r _ ks => noRaise r && noRaiseL ks
+  | .switch cs _ vs => noRaiseL cs && noRaiseL vs
+  | .selectCase ps _ => noRaiseL ps
+  | .allCases ps => noRaiseL ps
+  | .switchCase c _ as => noRaise c && noRaiseL as
+  | .coalesce as _ => noRaiseL as
+  | .defCalls b _ os => noRaise b && noRaiseL os
+  | .raise_ _ => false
+  | .lazy b _ => noRaiseL b
+def noRaiseL : List X → Bool
+  | [] => true
+  | x :: r => noRaise x && noRaiseL r
+end
+
+mutual
+/-- only calls with eager parameters, some of which may fail -/
+def callsOnly : X → Bool
+  | .leaf => true
+  | .tick _ a => callsOnly a
+  | .eager ks => callsOnlyL ks
+  | .raise_ ks => callsOnlyL ks
+  | _ => false
+def callsOnlyL : List X → Bool
+  | [] => true
+  | x :: r => callsOnly x && callsOnlyL r
+end
+
+/-! ### lazy values that nothing consumes -/
+
+mutual
+/-- the probes inside per-element lambdas of lazy values that nothing iterates -/
+def dormant : X → List Nat
+  | .leaf => []
+  | .tick _ a => dormant a
+  | .eager ks => (dormantL ks).flatten
+  | .and_ a b _ => dormant a ++ dormant b
+  | .or_ a b _ => dormant a ++ dormant b
+  | .elvis r _ ks => dormant r ++ (dormantL ks).flatten
+  | .switch cs _ vs => (dormantL cs).flatten ++ (dormantL vs).flatten
+  | .selectCase ps _ => (dormantL ps).flatten
+  | .allCases ps => (dormantL ps).flatten
+  | .switchCase c _ as => dormant c ++ (dormantL as).flatten
+  | .coalesce as _ => (dormantL as).flatten
+  | .defCalls b _ os => dormant b ++ (dormantL os).flatten
+  | .raise_ ks => (dormantL ks).flatten
+  | .lazy b d => (dormantL b).flatten ++ (probesL d).flatten
+def dormantL : List X → List (List Nat)
+  | [] => []
+  | x :: r => dormant x :: dormantL r
+end
+
+mutual
+/-- all other probes: those whose operand is evaluated when the operator's meaning selects it -/
+def awake : X → List Nat
+  | .leaf => []
+  | .tick id a => awake a ++ [id]
+  | .eager ks => (awakeL ks).flatten
+  | .and_ a b _ => awake a ++ awake b
+  | .or_ a b _ => awake a ++ awake b
+  | .elvis r _ ks => awake r ++ (awakeL ks).flatten
+  | .switch cs _ vs => (awakeL cs).flatten ++ (awakeL vs).flatten
+  | .selectCase ps _ => (awakeL ps).flatten
+  | .allCases ps => (awakeL ps).flatten
+  | .switchCase c _ as => awake c ++ (awakeL as).flatten
+  | .coalesce as _ => (awakeL as).flatten
+  | .defCalls b _ os => awake b ++ (awakeL os).flatten
+  | .raise_ ks => (awakeL ks).flatten
+  | .lazy b _ => (awakeL b).flatten
+def awakeL : List X → List (List Nat)
+  | [] => []
+  | x :: r => awake x :: awakeL r
 end
 
 end Yaql.EvalOrder
